@@ -52,10 +52,10 @@ def add(pid, engine, level, text, note, tech):
         "technique": tech,
     })
 
-add("C08","E-AN","exploration","Generated workspaces of 2-7 interacting files (18 template groups: split classes, globals, modules and require cycles, aliases/enums/operators, inheritance, multi-file members, generics, overloads/visibility/deprecation, namespaces, callable classes and metatables, flow narrowing, module tables extended from other files, same-named file-scoped types, meta and library files) are fully analysed and reindexed, then driven through histories of unchanged re-submissions (single files, batches in seeded order) and edit-then-restore pairs; after every step the complete observation (diagnostics, per-token types and declarations, local / global / type / member-key / string references, hover docs and property flags, type declarations with generics, supers, sub-types, operators and members, global-path members, globals, module registration, dependencies and resolution) must equal the pre-history observation and no index container (hook H2) may have grown. Outcomes that differ between hash seeds are excluded as C11's subject.",AN_NOTE,AN_TECH)
-add("C09","E-AN","exploration","Histories of 3-24 updates, batches, removals (three removal paths), configuration changes and reindexes over generated workspaces, then reindex(); the observation must equal that of a brand-new analysis of the surviving files loaded in the same file-id order with the final configuration.",AN_NOTE,AN_TECH)
+add("C08","E-AN","exploration","Generated workspaces of 2-7 interacting files (20 template groups, a third of the workspaces additionally taken off the templates by seeded text mutations - grafted declarations, shifted positions, deleted lines, colliding renames: split classes, globals, modules and require cycles, aliases/enums/operators, inheritance, multi-file members, generics, overloads/visibility/deprecation, namespaces, callable classes and metatables, flow narrowing, module tables extended from other files, same-named file-scoped types, meta and library files) are fully analysed and reindexed, then driven through histories of unchanged re-submissions (single files, batches in seeded order) and edit-then-restore pairs; after every step the complete observation (diagnostics, per-token types and declarations, local / global / type / member-key / string references, hover docs and property flags, type declarations with generics, supers, sub-types, operators and members, global-path members, globals, module registration, dependencies and resolution) must equal the pre-history observation and no index container (hook H2) may have grown. Outcomes that differ between hash seeds are excluded as C11's subject. In mutated workspaces a difference that disappears when every file is re-submitted once more is reported under one known-finding class (stale dependents), and growth must continue on repetition.",AN_NOTE,AN_TECH)
+add("C09","E-AN","exploration","Histories of 3-24 updates, batches, removals (three removal paths), configuration changes (deserialized afresh or installed as a modified clone of the configuration in force; with the reload of every live file when they change how text is parsed) and reindexes over generated workspaces, then reindex(); the observation must equal that of a brand-new analysis of the surviving files loaded in the same file-id order with the final configuration.",AN_NOTE,AN_TECH)
 add("C10","E-AN","exploration","Generated workspaces, optional edits, then removal of a seeded subset through remove_file_by_uri / update(None) / batch None: no query result may name a removed file (declaration, member, type location, global, module, require resolution), after a reindex the observation equals a fresh analysis of the survivors, removing everything returns every index container to the empty-workspace baseline, and 4 add+remove cycles hold no more state than 1.",AN_NOTE,AN_TECH)
-add("C24","E-LS","exploration","Seeded exploration of message sequences mixing all 38 registered request methods (valid, malformed, absent params; in-range and far out-of-range positions), unknown methods, $/cancelRequest for pending/answered/unknown ids, stray responses, unknown and ill-typed notifications, editor-initiated file renames (workspace/didRenameFiles with the follow-up showMessageRequest / applyEdit round trip), number and string request ids, handshake variants (undeserializable initialize capabilities, request before initialize), under seeded task schedules, clock jumps and client faults (late / error / duplicate / withheld answers to server requests). Oracle over the recorded history: no duplicate or alien response; after faults stop and 120 simulated seconds every request id has exactly one result-xor-error response; a final probe sequence is still served.",LS_NOTE,LS_TECH)
+add("C24","E-LS","exploration","Seeded exploration of message sequences mixing all 38 registered request methods (valid, malformed, absent params; in-range and far out-of-range positions), unknown methods, ids as numbers, unrelated strings and twin strings (the digits of another request's numeric id), $/cancelRequest for pending/answered/unknown ids, stray responses, unknown and ill-typed notifications, editor-initiated file renames (workspace/didRenameFiles with the follow-up showMessageRequest / applyEdit round trip), number and string request ids, handshake variants (undeserializable initialize capabilities, request before initialize), under seeded task schedules, clock jumps and client faults (late / error / duplicate / withheld answers to server requests). Oracle over the recorded history: no duplicate or alien response; after faults stop and 120 simulated seconds every request id has exactly one result-xor-error response; a final probe sequence is still served.",LS_NOTE,LS_TECH)
 add("C27","E-LS","exploration","Seeded exploration of open/change/close/reopen bursts under random, mostly-FIFO, priority (PCT-like) and FIFO task schedules with seeded yields before lock acquisitions; after quiescence the content the analysis holds for every document is read back through emmy/syntaxTree and compared with a message-order reference model, and where the text matches a hover on its marker local must show the index was rebuilt from that text (document versions restart per open session as editors do); closed on-disk documents are additionally rewritten on disk to check they are treated as closed.",LS_NOTE,LS_TECH)
 add("C28","E-LS","exploration","Seeded exploration of lock-heavy scripts (position requests, open/change/close, watched-file events for Lua files and .emmyrc.json, configuration changes, saves with reindex, file renames, pull diagnostics, cancellations) at zero gaps under seeded schedules, pre-acquire yields and a per-run slow resource (one lock type whose acquisitions stall often and long), with tokio's real fair RwLock/Mutex. O1 bounded liveness: after faults stop every probe (tree per document, didOpen of a fresh document needing both write locks, hover on it) completes within 300 simulated seconds, else the wait-for graph of the lock trace names the cycle. O2: no task waits for a lock it already holds. O3: the nested acquisitions observed in one run must order the locks acyclically (a cycle is reported even if the schedule did not close it into a stall); the union of edges is reported as evidence.",LS_NOTE,LS_TECH)
 add("C29","E-LS","exploration","Seeded exploration of scripts containing at least one reload/reindex trigger (.emmyrc.json rewrite + watcher event, didChangeConfiguration with changed client config, didSave with enableReindex) interleaved with open/change/save/close and external disk writes/deletes/renames of closed files with delayed, duplicated, reordered watcher events; a share of the steps is trace-triggered (sent the moment a background task of the server takes its open-file snapshot, acquires or releases the analysis write lock, etc., with that task then held back); after all events are delivered and 120 simulated seconds, every open workspace document must show exactly its last editor text, closed on-disk documents the disk content (last editor text tolerated for a dirty close until the next reported disk change), closed not-on-disk documents must be absent.",LS_NOTE,LS_TECH)
